@@ -119,7 +119,7 @@ func (g *gen) effects(recvBuf int) []Eff {
 		n = 2
 	}
 	for i := 0; i < n; i++ {
-		switch r.PickW([]int{45, 10, 22, 8, 15}) {
+		switch r.PickW([]int{32, 8, 30, 8, 22}) {
 		case 0:
 			if recvBuf >= 0 {
 				out = append(out, Eff{K: "detach", B: recvBuf})
@@ -160,7 +160,7 @@ func (g *gen) maybeTricky(prim Arg, recvBuf int, p int) Arg {
 }
 
 func (g *gen) elem(t taref.ElemType, recvBuf int) Arg {
-	return g.maybeTricky(g.primFor(t), recvBuf, 14)
+	return g.maybeTricky(g.primFor(t), recvBuf, 9)
 }
 
 // index returns an argument used as a relative index / offset for a length n.
@@ -191,7 +191,7 @@ func (g *gen) index(n int, recvBuf int) Arg {
 	default:
 		a = num(float64(r.Range(0, n)))
 	}
-	return g.maybeTricky(a, recvBuf, 16)
+	return g.maybeTricky(a, recvBuf, 10)
 }
 
 func (g *gen) pickView(pred func(*taref.TypedArray) bool) (int, *taref.TypedArray) {
@@ -231,7 +231,7 @@ func (g *gen) pickBuf(liveOnly bool) int {
 
 func (g *gen) callback(recvBuf int, n int, rets []Arg) Arg {
 	cb := Arg{K: "cb", I: g.id(), At: -1, L: rets}
-	if g.r.Chance(35, 100) {
+	if g.r.Chance(28, 100) {
 		cb.At = g.r.Range(0, n)
 		cb.E = g.effects(recvBuf)
 	}
@@ -244,7 +244,7 @@ func (g *gen) comparator(t taref.ElemType, recvBuf int) Arg {
 		kinds = append(kinds, "asc", "desc", "asc", "desc")
 	}
 	c := Arg{K: "cmp", I: g.id(), S: core.Pick(g.r, kinds)}
-	if g.r.Chance(40, 100) {
+	if g.r.Chance(32, 100) {
 		c.E = g.effects(recvBuf)
 	}
 	return c
@@ -529,7 +529,10 @@ func (g *gen) ops() []opGen {
 			return op
 		})},
 		{6, view(func(id int, v *taref.TypedArray) *Op {
-			op := &Op{K: core.Pick(r, []string{"sort", "sort", "toSorted"}), V: id, Out: g.nextView, OutB: g.nextBuf}
+			op := &Op{K: core.Pick(r, []string{"sort", "sort", "toSorted"}), V: id}
+			if op.K == "toSorted" {
+				op.Out, op.OutB = g.nextView, g.nextBuf
+			}
 			switch r.PickW([]int{45, 45, 10}) {
 			case 1:
 				op.A = []Arg{g.comparator(v.Type, bufOf(v))}
@@ -676,6 +679,43 @@ func (g *gen) ops() []opGen {
 			}
 			return op
 		}},
+		{4, func(g *gen) *Op { // %TypedArray%.of / from through a custom constructor that returns an existing (reachable) view
+			id, v := g.pickView(nil)
+			if v == nil {
+				return nil
+			}
+			n := r.Range(0, v.Length+1)
+			if n > 8 {
+				n = r.Range(0, 8)
+			}
+			op := &Op{K: "ofC", V: id, N: g.id()}
+			if r.Bool() {
+				for i := 0; i < n; i++ {
+					op.A = append(op.A, g.elem(v.Type, bufOf(v)))
+				}
+				return op
+			}
+			op.K = "fromC"
+			var src Arg
+			if r.Chance(60, 100) {
+				src = Arg{K: "arr"}
+			} else {
+				ln := g.maybeTricky(num(float64(n)), bufOf(v), 30)
+				src = Arg{K: "al", Len: &ln}
+			}
+			for i := 0; i < n; i++ {
+				src.L = append(src.L, g.elem(v.Type, bufOf(v)))
+			}
+			op.A = []Arg{src}
+			if r.Chance(50, 100) {
+				var rets []Arg
+				for i := 0; i < 3; i++ {
+					rets = append(rets, g.elem(v.Type, bufOf(v)))
+				}
+				op.A = append(op.A, g.callback(bufOf(v), n, rets))
+			}
+			return op
+		}},
 		{6, view(func(id int, v *taref.TypedArray) *Op {
 			return &Op{K: "setCtor", V: id, Sp: g.species(v.Type, bufOf(v))}
 		})},
@@ -711,7 +751,7 @@ func (g *gen) ops() []opGen {
 			}
 			return &Op{K: "bufLen", V: b}
 		}},
-		{2, func(g *gen) *Op {
+		{1, func(g *gen) *Op {
 			b := g.pickBuf(true)
 			if b < 0 {
 				return nil
@@ -922,6 +962,14 @@ func genCase(c *core.Ctx) *Case {
 	}
 	nops := r.Range(6, 25)
 	for tries := 0; len(g.cs.Ops) < nops+6 && tries < 80; tries++ {
+		if len(g.liveBufIDs()) == 0 && r.Chance(70, 100) {
+			// everything is detached: allocate again so that the rest of the sequence is not only TypeErrors
+			g.apply(&Op{K: "bufNew", A: []Arg{num(float64(core.Pick(r, bufSizes)))}, OutB: g.nextBuf})
+			if op := g.newView(); op != nil {
+				g.apply(op)
+			}
+			continue
+		}
 		if op := table[r.PickW(weights)].f(g); op != nil {
 			g.apply(op)
 		}
